@@ -72,6 +72,21 @@ def check(ctx, rep):
     from ..rules import eff as _eff
     _eff.eff_1(ctx, rep, only=[('parso/grammar.py', 'Grammar._get_normalizer_issues')], minimum=20)
     normr.norm_12(ctx, rep)      # None-able indentation attributes (tab configuration)
+    normr.norm_14(ctx, rep)      # walks up the indentation stack stop at the root
+    # leaf text taken for syntax where a sibling is then addressed by index arithmetic (F22: '==' in a format spec)
+    from ..rules import tc as _tc
+
+    def _sibling_access(f, eff):
+        for x in ast.walk(eff):
+            if isinstance(x, ast.Call) and isinstance(x.func, ast.Attribute) and x.func.attr == 'index':
+                return True
+            if isinstance(x, ast.Subscript) and any(isinstance(y, ast.BinOp) for y in ast.walk(x.slice)):
+                return True
+        return False
+    rep.rule('TC-1', 'in pep8.py the text of a leaf is compared with keyword / operator spellings, with a neighbour then addressed by '
+                     'index arithmetic, only on keyword / operator leaves')
+    _tc.tc_sites(ctx, rep, 'parso/python/pep8.py', 'TC-1', wanted=_sibling_access, reason_scope='an access to a sibling by index arithmetic')
+    rep.minimum('TC-1', 1)
     from ..rules import normr as _n11
     _n11.norm_11(ctx, rep)      # prefix part columns: first-line state does not leak into later lines
     from ..rules import normr as _n13
